@@ -176,7 +176,7 @@ pub fn exec(plan: &Plan, _trials: &mut Trials) -> RunReport {
     match out {
         Caught::Ok(None) => {}
         Caught::Ok(Some((class, detail))) => rep.viols.push(Viol { property: "C04".into(), class, detail, trial: 0 }),
-        Caught::Panic(p) => rep.viols.push(Viol { property: "C04".into(), class: format!("panic:{}", normalise(&p)), detail: p, trial: 0 }),
+        Caught::Panic(p) => rep.viols.push(Viol { property: "C04".into(), class: panic_class(&p), detail: p, trial: 0 }),
         Caught::Budget => {}
     }
     rep
